@@ -37,7 +37,17 @@
 (* or plausible optimisations ("cache-ops": Operands() reuses its slot     *)
 (* list while the length is unchanged, "dedup-succs": Succs() lists a      *)
 (* repeated target once, "sticky-succs": Succs() keeps its last answer     *)
-(* when no target is left).  TLC: every property holds for Dev = {}; each    *)
+(* when no target is left, "fold-succs": Succs() of a branch whose         *)
+(* non-target operand is a literal constant lists only the feasible        *)
+(* target, "ops-succs": Succs() is derived from the label-typed operands,  *)
+(* so a block passed as a call argument or bundle input of an invoke /     *)
+(* callbr shows up as a successor).                                         *)
+(* Value classes (constant Classes): with Classes = TRUE (terminators      *)
+(* only) an operand that admits any value may hold, from the start or by   *)
+(* a write through its slot, the literal constant "k" instead of an SSA    *)
+(* value; the law is SuccsLive itself: the successor list is independent   *)
+(* of the operands that are not branch targets.                            *)
+(* TLC: every property holds for Dev = {}; each                            *)
 (* singleton violates the property named in OperandsDev_*.cfg (run as      *)
 (* vacuity guards in every tier).                                          *)
 (*                                                                         *)
@@ -53,7 +63,8 @@ EXTENDS Schema
 
 CONSTANTS Dev,        \* set of deviations switched on
           MaxCalls,   \* bound on the number of calls / edits per history
-          MaxOps      \* only configurations with at most this many operands
+          MaxOps,     \* only configurations with at most this many operands
+          Classes     \* TRUE: terminators only, operands may hold / be overwritten with a literal constant "k"
 
 VARIABLES stage,   \* "init" "kind" "case" "placed"
           k,       \* index of the kind
@@ -97,23 +108,33 @@ Init == /\ stage = "init" /\ k = 0 /\ e = <<>> /\ c = <<>> /\ addr = <<>> /\ mem
         /\ cacheS = [set |-> FALSE, v |-> <<>>] /\ cacheO = [set |-> FALSE, v |-> <<>>] /\ out = <<>>
         /\ last = [op |-> "none", slot |-> 0] /\ steps = 0
 
-PickKind == /\ stage = "init" /\ k' \in 1..NKinds /\ e' = Kinds[k'] /\ stage' = "kind"
+PickKind == /\ stage = "init" /\ k' \in (IF Classes THEN {i \in 1..NKinds : Kinds[i].cat = "term"} ELSE 1..NKinds)
+            /\ e' = Kinds[k'] /\ stage' = "kind"
             /\ UNCHANGED <<c, addr, mem, cacheS, cacheO, out, last, steps>>
 PickCase == /\ stage = "kind"
-            /\ c' \in {x \in Cases(E) : x.fam \in {"config", "wrap"} /\ Len(x.ops) > 0 /\ Len(x.ops) <= MaxOps}
+            /\ c' \in {x \in Cases(E) : x.fam \in {"config", "wrap", "labelarg"} /\ Len(x.ops) > 0 /\ Len(x.ops) <= MaxOps}
             /\ stage' = "case" /\ UNCHANGED <<k, e, addr, mem, cacheS, cacheO, out, last, steps>>
 Place == /\ stage = "case"
          /\ addr' = Tup([i \in 1..N |-> i])
          /\ \E i \in 1..N : \E j \in i..N :
-              mem' = Tup([x \in 1..N |-> IF x = i \/ x = j THEN "a" ELSE Other(x)])
+              \* (value classes: at most one other operand that admits any value is the literal constant "k")
+              \E q \in {0} \cup (IF Classes THEN {x \in 1..N : x # i /\ x # j /\ c.ops[x].src = "any"} ELSE {}) :
+                mem' = Tup([x \in 1..N |-> IF x = i \/ x = j THEN "a" ELSE IF x = q THEN "k" ELSE Other(x)])
          /\ stage' = "placed" /\ UNCHANGED <<k, e, c, cacheS, cacheO, out, last, steps>>
 
 Call == stage = "placed" /\ steps < MaxCalls /\ steps' = steps + 1 /\ UNCHANGED <<stage, k, e>>
 
+\* deviation fold-succs: a literal constant in a non-target operand leaves only the first ("feasible") target
+Folded == IF Len(Targets) > 1 /\ \E i \in 1..N : c.ops[i].role = "value" /\ Val(i) = "k" THEN <<Targets[1]>> ELSE Tup(Targets)
+\* deviation ops-succs: the blocks among the operands, in operand order
+LabelOps == SelectSeq([i \in 1..N |-> i], LAMBDA i : c.ops[i].ty = TyLabel)
+BlocksAmongOps == Tup([n \in 1..Len(LabelOps) |-> Val(LabelOps[n])])
 QuerySuccs ==
   /\ Call /\ E.cat = "term"
   /\ out' = IF "sticky-succs" \in Dev /\ c.succs = <<>> THEN out     \* nothing assigned when there is no target
             ELSE IF "cache-succs" \in Dev /\ cacheS.set THEN cacheS.v
+            ELSE IF "fold-succs" \in Dev THEN Folded
+            ELSE IF "ops-succs" \in Dev THEN BlocksAmongOps
             ELSE IF "dedup-succs" \in Dev THEN Dedup(Targets) ELSE Tup(Targets)
   /\ cacheS' = IF cacheS.set THEN cacheS ELSE [set |-> TRUE, v |-> Tup(Targets)]
   /\ last' = [op |-> "succs", slot |-> 0]
@@ -122,11 +143,16 @@ QuerySuccs ==
 QueryOperands ==
   /\ Call /\ Remember /\ last' = [op |-> "ops", slot |-> 0] /\ UNCHANGED <<c, addr, mem, cacheS, out>>
 
+\* the operand (if any) whose cell is `cell` admits any value
+AnyAt(cell) == \E i \in 1..N : addr[i] = cell /\ c.ops[i].src = "any"
 ReplaceOperand ==
   /\ Call /\ Remember
   /\ \E p \in 1..Len(OperandsNow) :
-       /\ mem' = [mem EXCEPT ![OperandsNow[p]] = "n"]
-       /\ last' = [op |-> "write", slot |-> p]
+       \/ /\ mem' = [mem EXCEPT ![OperandsNow[p]] = "n"]
+          /\ last' = [op |-> "write", slot |-> p]
+       \/ /\ Classes /\ AnyAt(OperandsNow[p])          \* a literal constant instead of an SSA value
+          /\ mem' = [mem EXCEPT ![OperandsNow[p]] = "k"]
+          /\ last' = [op |-> "writek", slot |-> p]
   /\ UNCHANGED <<c, addr, cacheS, out>>
 
 ReplaceAllUses ==
@@ -205,9 +231,10 @@ Complete == Placed => /\ OperandsNow = addr
 NoUseLeft == Placed /\ last.op = "rauw" => \A i \in 1..N : Val(i) # "a"
 SuccsLive == Placed /\ last.op = "succs" => out = Targets
 \* a write through slot p is seen at the p-th exposed operand
-WriteLive == Placed /\ last.op = "write" => Val(ExposedIdx[last.slot]) = "n"
+WriteLive == /\ Placed /\ last.op = "write" => Val(ExposedIdx[last.slot]) = "n"
+             /\ Placed /\ last.op = "writek" => Val(ExposedIdx[last.slot]) = "k"
 \* ... and changes nothing else (action property)
-WriteExact == [][Placed /\ last'.op = "write" =>
+WriteExact == [][Placed /\ last'.op \in {"write", "writek"} =>
                   \A i \in 1..N : i # ExposedIdx[last'.slot] => mem'[addr'[i]] = mem[addr[i]]]_vars
 
 View == <<stage, k, c, addr, mem, cacheS, cacheO, out, last>>
